@@ -208,9 +208,9 @@ func operandForm(tag string) MalType {
 // macro body templates over parameters a, b (and rest r)
 func macroBody(tag string, rest bool) MalType {
 	uq := func(n string) MalType { return lst(sym("unquote"), sym(n)) }
-	n := 6
+	n := 10
 	if rest {
-		n = 7
+		n = 11
 	}
 	switch vrt.Concrete(vrt.Choice(tag, n)) {
 	case 0: // (list a b)
@@ -227,6 +227,14 @@ func macroBody(tag string, rest bool) MalType {
 		return lst(sym("if"), lst(sym("list?"), sym("a")),
 			lst(sym("quasiquote"), lst(sym("m"), lst(sym("unquote"), lst(sym("first"), sym("a"))), uq("b"))),
 			lst(sym("quasiquote"), lst(sym("list"), uq("a"), uq("b"))))
+	case 6: // expands to a vector: its elements are evaluated in the caller's scope
+		return lst(sym("quasiquote"), Vector{Val: []MalType{uq("a"), uq("b"), sym("local")}})
+	case 7: // expands to a hash-map whose value is the operand form
+		return lst(sym("hash-map"), NewKeyword("k"), sym("a"))
+	case 8: // expands to the operand itself (a symbol, an atom or a call)
+		return sym("a")
+	case 9: // expands to a vector nested in a call
+		return lst(sym("quasiquote"), lst(sym("list"), Vector{Val: []MalType{uq("b")}}, uq("a")))
 	default: // & rest spliced
 		return lst(sym("quasiquote"), lst(sym("list"), uq("a"), lst(sym("splice-unquote"), sym("r"))))
 	}
